@@ -146,7 +146,7 @@ def replay(spec, ctx):
 
 def run(ctx):
     q = ctx.tier == "quick"
-    run_hypothesis(ctx, bc.leaf_cases(inv=False), oracle, 130 if q else 2000, "C02-leaves")
+    run_hypothesis(ctx, bc.leaf_cases(inv=False), oracle, 130 if q else 1200, "C02-leaves")
     run_hypothesis(ctx, bc.tree_cases(3, 8, inv=False) if q else bc.tree_cases(4, 14, inv=False), oracle,
-                   45 if q else 500, "C02-trees")
-    run_hypothesis(ctx, bc.flow_cases(), oracle, 9 if q else 90, "C02-flows")
+                   45 if q else 250, "C02-trees")
+    run_hypothesis(ctx, bc.flow_cases(), oracle, 9 if q else 50, "C02-flows")
